@@ -578,6 +578,9 @@ def rule_r3(ctx) -> List[R.Inst]:
                                         f"hold length has no {'reader' if r is None else 'writer'} slot",
                                         construct=f"{name}.length missing"))
                     continue
+                if r[0] == "?":
+                    insts.append(R.undec("C01.R3", key, file, r[-1].lineno, f"how the length is read was not followed: {r[1][:80]}"))
+                    continue
                 if r[0] != "diff":
                     insts.append(R.viol("C01.R3", key, file, r[-1].lineno,
                                         "length must be read as tail-slot minus offset-slot", construct=unparse(r[-1])))
@@ -605,6 +608,16 @@ def rule_r3(ctx) -> List[R.Inst]:
                 # the writer's text could not be read slot by slot: no verdict about what it writes
                 insts.append(R.undec("C01.R3", key, file, wret.lineno, f"writer of '{f}' not recognised (the writer builds its text in an unmodelled way)"))
                 continue
+            if r is None and w is not None:
+                # the reader also fills its field dict by statements whose keys are not literal (d.update(zip(NAMES, values)), **rest):
+                # which fields those cover is not read off the dict display
+                dn_ = dnode.targets[0].id if isinstance(dnode.targets[0], ast.Name) else None
+                blind = [x for x in ast.walk(rfn.node) if isinstance(x, ast.Call) and isinstance(x.func, ast.Attribute) and x.func.attr == "update" and
+                         isinstance(x.func.value, ast.Name) and x.func.value.id == dn_ and x.args and not isinstance(x.args[0], ast.Dict)]
+                if blind:
+                    insts.append(R.undec("C01.R3", key, file, blind[0].lineno,
+                                         f"'{f}' is not a key of the reader's field dict, but the dict is also filled by '{unparse(blind[0])[:60]}': not decided"))
+                    continue
             if r is None or w is None:
                 insts.append(R.viol("C01.R3", key, file, (dnode.lineno if w is None else wret.lineno),
                                     f"declared field '{f}' is {'read but never written' if w is None else 'written but never read'}",
@@ -988,8 +1001,15 @@ def rule_r7(ctx) -> List[R.Inst]:
         declared = set(M.item_fields(cq))
         got = set(rs)
         f2 = M.mods[rfn.mod].rel
+        dn_ = dnode.targets[0].id if isinstance(dnode.targets[0], ast.Name) else None
+        more = [x for x in ast.walk(rfn.node) if (isinstance(x, ast.Call) and isinstance(x.func, ast.Attribute) and x.func.attr == "update" and
+                                                  isinstance(x.func.value, ast.Name) and x.func.value.id == dn_) or
+                (isinstance(x, ast.Assign) and isinstance(x.targets[0], ast.Subscript) and isinstance(x.targets[0].value, ast.Name) and x.targets[0].value.id == dn_)]
         if got == declared:
             insts.append(R.ok("C01.R7", f"{name}.read-columns", f2, dnode.lineno, idiom="dict keys = declared fields"))
+        elif more and got < declared:
+            insts.append(R.undec("C01.R7", f"{name}.read-columns", f2, more[0].lineno,
+                                 f"the field dict is completed by later statements ('{unparse(more[0])[:60]}'): which keys they add is not decided"))
         else:
             insts.append(R.viol("C01.R7", f"{name}.read-columns", f2, dnode.lineno,
                                 f"read_string yields {sorted(got)}; declared fields are {sorted(declared)}",
